@@ -1,5 +1,6 @@
 import Mustache.Model.World
 import Mustache.Driver.World
+import Mustache.Proofs.RowsOps
 /-!
 # C09 — operations through dead, null or foreign handles are harmless
 
@@ -248,9 +249,45 @@ theorem destroy_invalid_dropped_by_update (info : CompId → CompInfo) (w : WM) 
   rw [update_eq info w hl, update_eq info _ hl', hm]
   simp only [updFold_marked, updFold_drop_invalid info (w, []) pre post h hv]
 
-/-- the usual case: `h` is invalid when `update()` starts and no other pending entry names the same
-id, so nothing processed before it can change its slot -/
-def destroy_invalid_dropped_by_update'_statement : Prop := True
+/-- processing handles with other ids does not revive an invalid handle -/
+theorem updFold_keeps_invalid (info : CompId → CompInfo) (h : Handle) (pre : List Handle)
+    (acc : WM × List Cb) (hv : acc.1.isValid h = false) (hids : ∀ x ∈ pre, x.id ≠ h.id) :
+    (updFold info acc pre).1.isValid h = false := by
+  induction pre generalizing acc with
+  | nil => exact hv
+  | cons x pre ih =>
+    have hx : x.id ≠ h.id := hids x (by simp)
+    have : updFold info acc (x :: pre) = updFold info (updFold info acc [x]) pre := by
+      simp [updFold]
+    rw [this]
+    apply ih
+    · show (acc.1.destroyNowU info x).1.isValid h = false
+      rw [Mustache.Proofs.Rows.destroyNowU_isValid_ne info acc.1 x h (Ne.symm hx)]; exact hv
+    · exact fun y hy => hids y (by simp [hy])
+
+/-- the usual case: `h` is invalid when `update()` starts and no pending entry processed before it
+names the same id (entries are ordered by packed value, so e.g. `h` is the only or the
+lowest-versioned entry of its id): `update()` = `update()` without the entry -/
+theorem destroy_invalid_dropped_by_update_ids (info : CompId → CompInfo) (w : WM) (pre post : List Handle)
+    (h : Handle) (hl : w.isLocked = false) (hm : w.marked = pre ++ h :: post)
+    (hv : w.isValid h = false) (hids : ∀ x ∈ pre, x.id ≠ h.id) :
+    w.update info = ({ w with marked := pre ++ post }).update info :=
+  destroy_invalid_dropped_by_update info w pre post h hl hm
+    (updFold_keeps_invalid info h pre (w, []) hv hids)
+
+/-- `destroy stale; update` on a state with an empty pending set = `update` alone: nothing at all
+happened to the world -/
+theorem destroy_invalid_then_update (info : CompId → CompInfo) (w : WM) (t : Nat) (h : Handle)
+    (hl : w.isLocked = false) (hm : w.marked = []) (hv : w.isValid h = false) :
+    (w.destroy t h).update info = w.update info := by
+  rw [destroy_marks_only w t h hl, hm]
+  have := destroy_invalid_dropped_by_update_ids info { w with marked := [h] } [] [] h hl rfl hv
+    (fun _ hx => by cases hx)
+  rw [show insertSorted [] h = [h] from rfl, this]
+  simp only [List.append_nil]
+  rw [show ({ ({ w with marked := [h] } : WM) with marked := [] } : WM) = w from by rw [← hm]]
+
+example : sampleW.marked = [] ∧ sampleW.isValid stale = false := by decide
 
 example : (sampleW.destroy 0 stale).marked = [stale] := by decide
 example : ((sampleW.destroy 0 stale).update cat).1.archs.map (·.rows.length) = [0, 0, 1] := by decide
